@@ -1,6 +1,7 @@
 package main
 
 import (
+	"go/token"
 	"fmt"
 	"go/types"
 	"sort"
@@ -1119,7 +1120,7 @@ func (e *Engine) copyOp(fr *frame, cc *ssa.CallCommon, args []Val, heap Heap) Va
 			e.dirty[c.key] = true
 			return
 		}
-		if dl, ok := e.smallConst(d.Len); ok && dl <= 32 {
+		if dl, ok := e.smallConst(d.Len); ok && dl <= 48 {
 			// a short destination: at most dl elements change, each conditionally
 			t := old
 			for j := 0; j < dl; j++ {
@@ -1419,7 +1420,7 @@ func (e *Engine) recApp(fn *ssa.Function, args []Val, resT types.Type, heap Heap
 		}
 	}
 	// the function's value can only change when objects that existed at entry are written
-	hid := e.dirtyHeapID(heap)
+	hid := e.dirtyHeapIDFor(heap, fn)
 	rs, ok := scalarSort(resT)
 	if !ok {
 		fail("recursive spec function %s must return a scalar", fn.Name())
@@ -1482,6 +1483,108 @@ func (e *Engine) dirtyHeapID(heap Heap) int {
 		}
 	}
 	return e.heapID(dh)
+}
+
+// dirtyHeapIDFor: as dirtyHeapID, restricted to the components fn (and what it calls) can read:
+// writes to other components cannot change its value.
+func (e *Engine) dirtyHeapIDFor(heap Heap, fn *ssa.Function) int {
+	roots, all := e.readRoots(fn, map[*ssa.Function]bool{})
+	if all {
+		return e.dirtyHeapID(heap)
+	}
+	dh := Heap{}
+	for k, v := range heap {
+		if !e.dirty[k] {
+			continue
+		}
+		for r := range roots {
+			if k == r || strings.HasPrefix(k, r+".") || strings.HasPrefix(k, r+"[") || strings.HasPrefix(k, r+"#") {
+				dh[k] = v
+				break
+			}
+		}
+	}
+	return e.heapID(dh)
+}
+
+// readRoots: type keys of the objects fn may read from memory (syntactic, through static callees);
+// all = true when that cannot be bounded (dynamic calls).
+func (e *Engine) readRoots(fn *ssa.Function, seen map[*ssa.Function]bool) (map[string]bool, bool) {
+	roots := map[string]bool{}
+	if seen[fn] {
+		return roots, false
+	}
+	seen[fn] = true
+	addPtr := func(t types.Type) {
+		if pt, ok := under(t).(*types.Pointer); ok {
+			roots[typeKey(pt.Elem())] = true
+			if at, ok := under(pt.Elem()).(*types.Array); ok {
+				roots[typeKey(types.NewSlice(at.Elem()))] = true
+			}
+		}
+	}
+	for _, b := range fn.Blocks {
+		for _, ins := range b.Instrs {
+			switch x := ins.(type) {
+			case *ssa.UnOp:
+				if x.Op == token.MUL {
+					addPtr(x.X.Type())
+				}
+			case *ssa.FieldAddr:
+				addPtr(x.X.Type())
+			case *ssa.IndexAddr:
+				if st, ok := under(x.X.Type()).(*types.Slice); ok {
+					roots[typeKey(types.NewSlice(st.Elem()))] = true
+				} else {
+					addPtr(x.X.Type())
+				}
+			case *ssa.Lookup:
+				if mt, ok := under(x.X.Type()).(*types.Map); ok {
+					roots[typeKey(mt)] = true
+					roots[typeKey(x.X.Type())] = true
+				}
+			case *ssa.Slice:
+				addPtr(x.X.Type())
+			case ssa.CallInstruction:
+				cc := x.Common()
+				if cc.IsInvoke() {
+					return roots, true
+				}
+				if _, isB := cc.Value.(*ssa.Builtin); isB {
+					continue
+				}
+				f := cc.StaticCallee()
+				if f == nil {
+					if mc, ok := cc.Value.(*ssa.MakeClosure); ok {
+						f, _ = mc.Fn.(*ssa.Function)
+					}
+				}
+				if f == nil {
+					return roots, true
+				}
+				if len(f.Blocks) == 0 || !e.inRepo(f) {
+					continue // library functions: modelled without reading repository objects
+				}
+				sub, all := e.readRoots(f, seen)
+				if all {
+					return roots, true
+				}
+				for k := range sub {
+					roots[k] = true
+				}
+			}
+		}
+	}
+	for _, af := range fn.AnonFuncs {
+		sub, all := e.readRoots(af, seen)
+		if all {
+			return roots, true
+		}
+		for k := range sub {
+			roots[k] = true
+		}
+	}
+	return roots, false
 }
 
 // canonVals renders values with all definitions expanded.
